@@ -121,6 +121,32 @@ theorem sgn_neg_eq (o : K) : sgn (-o) = -sgn o := by
   · subst h; simp [sgn]
   · rw [sgn_pos h, sgn_neg (by linarith : -o < 0)]
 
+omit [IsStrictOrderedRing K] in
+/-- The tie rule spelled out for a positively oriented triangle (`orient > 0`; with y down this is the
+clockwise-on-screen order): an edge owns its line iff it runs downwards (it is then a right edge) or is
+horizontal and runs to the left (it is then the bottom edge). -/
+theorem owns_one_iff (dx dy : K) : Owns 1 dx dy ↔ (0 < dy ∨ (dy = 0 ∧ dx < 0)) := by
+  unfold Owns; rw [one_mul, one_mul]
+
+/-- … and for a negatively oriented triangle: the edge runs upwards, or is horizontal and runs to the
+right. -/
+theorem owns_neg_one_iff (dx dy : K) : Owns (-1) dx dy ↔ (dy < 0 ∨ (dy = 0 ∧ 0 < dx)) := by
+  unfold Owns
+  constructor
+  · rintro (h | ⟨h, h'⟩)
+    · exact Or.inl (by linarith)
+    · exact Or.inr ⟨h, by linarith⟩
+  · rintro (h | ⟨h, h'⟩)
+    · exact Or.inl (by linarith)
+    · exact Or.inr ⟨h, by linarith⟩
+
+omit [IsStrictOrderedRing K] in
+/-- Strictly on the interior side of all three edges ⇒ inside (no tie rule involved). -/
+theorem inside_of_strict (a b c p : K × K) (ho : orient a b c ≠ 0)
+    (h1 : 0 < sgn (orient a b c) * edgeFn a b p) (h2 : 0 < sgn (orient a b c) * edgeFn b c p)
+    (h3 : 0 < sgn (orient a b c) * edgeFn c a p) : Inside a b c p :=
+  ⟨ho, Or.inl h1, Or.inl h2, Or.inl h3⟩
+
 /-- The combinatorial core of `sliceRule_iff_inside`, on abstract scalars: `h1 = M.y − T.y`,
 `h2 = B.y − M.y`, `u = cy − T.y`, `v = M.y − cy`, the three edge functions `e1 e2 e3` of T→M, M→B, B→T,
 the x-extents `d1 d2 d3` of those edges, and the polynomial identities that tie them together. -/
@@ -700,9 +726,10 @@ example : Covers (triFill (α := Rat) [2, 1] [8, 5] [4, 6]) 4 3 ∧
     intro v hv
     simp only [List.mem_cons, List.mem_nil_iff, or_false] at hv
     rcases hv with rfl | rfl | rfl <;> norm_num [nth1]
-  rw [trifill_covers_iff_inside (K := Rat) [2, 1] [8, 5] [4, 6] 2 (by omega) rfl rfl rfl hyv 4 3,
-    trifill_covers_iff_inside (K := Rat) [2, 1] [8, 5] [4, 6] 2 (by omega) rfl rfl rfl hyv 2 3]
-  constructor <;> norm_num [Inside, EdgeOK, OKs, Owns, edgeFn, orient, cross, sgn, pt, nth0, nth1]
+  have h1 := trifill_covers_iff_inside (K := Rat) [2, 1] [8, 5] [4, 6] 2 (by omega) rfl rfl rfl hyv 4 3
+  have h2 := trifill_covers_iff_inside (K := Rat) [2, 1] [8, 5] [4, 6] 2 (by omega) rfl rfl rfl hyv 2 3
+  refine ⟨h1.mpr ?_, fun hc => absurd (h2.mp hc) ?_⟩ <;>
+    norm_num [Inside, EdgeOK, OKs, Owns, edgeFn, orient, cross, sgn, pt, nth0, nth1]
 
 /-- A centre exactly on a shared edge: the square (0,0)–(4,4) split along the diagonal a = (0,0),
 b = (4,4) into the upper-right triangle (third vertex c = (4,0)) and the lower-left triangle (third
@@ -738,9 +765,10 @@ example : ¬ Covers (triFill (α := Rat) [0, 0] [4, 4] [4, 0]) 2 2 ∧
     intro v hv
     simp only [List.mem_cons, List.mem_nil_iff, or_false] at hv
     rcases hv with rfl | rfl | rfl <;> norm_num [nth1]
-  rw [trifill_covers_iff_inside (K := Rat) [0, 0] [4, 4] [4, 0] 2 (by omega) rfl rfl rfl hy1 2 2,
-    trifill_covers_iff_inside (K := Rat) [0, 0] [4, 4] [0, 4] 2 (by omega) rfl rfl rfl hy2 2 2]
-  constructor <;> norm_num [Inside, EdgeOK, OKs, Owns, edgeFn, orient, cross, sgn, pt, nth0, nth1]
+  have h1 := trifill_covers_iff_inside (K := Rat) [0, 0] [4, 4] [4, 0] 2 (by omega) rfl rfl rfl hy1 2 2
+  have h2 := trifill_covers_iff_inside (K := Rat) [0, 0] [4, 4] [0, 4] 2 (by omega) rfl rfl rfl hy2 2 2
+  refine ⟨fun hc => absurd (h1.mp hc) ?_, h2.mpr ?_⟩ <;>
+    norm_num [Inside, EdgeOK, OKs, Owns, edgeFn, orient, cross, sgn, pt, nth0, nth1]
 
 /-- …and the model itself agrees when run (kernel evaluation of `triFill` over ℚ): row 2 of the
 upper-right triangle starts at pixel 3, row 2 of the lower-left triangle ends after pixel 2. -/
